@@ -244,6 +244,9 @@ Fixpoint second_pass_dirs (c : cfg) (backlog : list backlog_entry) (w : world) (
     match (if v_backlog_chdir (c_var c) then chdir (w_fs w) d else Some cwd) with
     | None => ds
     | Some cwd1 =>
+      match backlog_verify (c_var c) (w_fs w) d src dst with
+      | Some _ => ds
+      | None =>
       match renamer c w cwd1 src dst false with
       | (w1, None) => second_pass_dirs c rest w1 cwd1 (cwd1 :: ds)
       | (w1, Some e) =>
@@ -253,6 +256,7 @@ Fixpoint second_pass_dirs (c : cfg) (backlog : list backlog_entry) (w : world) (
           | (w2, Some e2) => resolve_conflict_dirs c w1 cwd1 src dst ds
           end
         else ds
+      end
       end
     end
   end.
@@ -374,7 +378,7 @@ Lemma track_resolve_conflict wd wr d src dst wd' ed wr' er ds :
   Track (resolve_conflict_dirs cReal wr d src dst ds) wr'.
 Proof.
   intros S PE [PD [Ns Nd]]. cbn [fst snd] in PD, Ns, Nd.
-  unfold plain_entry in PE. cbn [fst snd] in PE. destruct PE as [Ld [Ps [Hsk Hdst]]].
+  unfold plain_entry in PE. cbn [fst snd] in PE. destruct PE as [Ld [Ps [Hsk [Hdst Hrt]]]].
   assert (Ovr : OVR -> forall wd0 wr0 wd1 e1 wr1 e2 ds0, SimR wd0 wr0 ->
             renamer cDry wd0 d src dst true = (wd1, e1) -> renamer cReal wr0 d src dst true = (wr1, e2) ->
             Track ds0 wr0 ->
@@ -423,10 +427,13 @@ Proof.
   induction bl as [|[[d src] dst] rest IH]; intros wd wr cwd wd' cd' ed wr' cr' er ds PB NB S; cbn [second_pass second_pass_dirs].
   - intros Ed Er T; inversion Er; subst. split; [reflexivity | exact T].
   - inversion PB as [|? ? PE PB']; subst. inversion NB as [|? ? NE NB']; subst. pose proof PE as PE0. pose proof NE as NE0.
-    unfold plain_entry in PE. cbn [fst snd] in PE. destruct PE as [Ld [Ps [Hsk Hdst]]].
+    unfold plain_entry in PE. cbn [fst snd] in PE. destruct PE as [Ld [Ps [Hsk [Hdst Hrt]]]].
     destruct NE as [PD [Ns Nd]]. cbn [fst snd] in PD, Ns, Nd.
     cbn [cD cR c_var fixed v_backlog_chdir].
     destruct (chdir_sim _ _ _ _ W0 _ _ _ _ S Ld Ps) as [-> ->].
+    unfold retest_ok in Hrt. cbn [fst snd] in Hrt.
+    rewrite (sim_fs _ _ _ _ _ _ S).
+    rewrite (Hrt s0 W0 (fun k => eq_refl)), (Hrt (w_fs wr) (sim_wf _ _ _ _ _ _ S) (sim_skel _ _ _ _ _ _ S)).
     destruct (renamer cDry wd d src dst false) as [wd1 ed1] eqn:Rd.
     destruct (renamer cReal wr d src dst false) as [wr1 er1] eqn:Rr.
     assert (R : ed1 = er1 /\ SimR wd1 wr1 /\ forall ds0, Track ds0 wr -> Track (pushed d er1 ds0) wr1).
@@ -490,8 +497,9 @@ Proof.
       assert (Pdd : dd_rel s0 (pf_dir f) np (removelast (pp_parts (pf_rel f)))) by (rewrite Enp; apply dd_rel_dest; assumption).
       pose proof (dd_rel_transfer _ _ _ _ _ (sim_skel _ _ _ _ _ _ S) Pdd) as Pdd'.
       rewrite (contained_dd s0 f np _ W0 Pdd), (contained_dd (w_fs wr) f np _ (sim_wf _ _ _ _ _ _ S) Pdd').
-      destruct (is_prefix_path (pf_dir f) (removelast (pf_dir f ++ removelast (pp_parts (pf_rel f))))).
+      destruct (is_prefix_path (pf_dir f) (removelast (pf_dir f ++ removelast (pp_parts (pf_rel f))))) eqn:IP.
       2:{ fp_exit T. }
+      assert (RT : retest_ok s0 (pf_dir f, pf_rel f, np)) by exact (retest_ok_dd s0 f _ np _ G Ps Pdd IP).
       rewrite (dest_parent_test_generated fixed _ s0 f _ np G eq_refl (source_contained_rel s0 f W0 Ps)),
               (dest_parent_test_generated fixed _ (w_fs wr) f _ np G eq_refl (source_contained_rel (w_fs wr) f (sim_wf _ _ _ _ _ _ S) (plain_rel_transfer _ _ _ _ (sim_skel _ _ _ _ _ _ S) Ps))).
       rewrite (parents_contained_dd s0 f np _ W0 Pdd), (parents_contained_dd (w_fs wr) f np _ (sim_wf _ _ _ _ _ _ S) Pdd').
@@ -501,7 +509,7 @@ Proof.
       cbn [is_file_exists].
       apply IH; try assumption.
       * constructor; [|assumption]. unfold plain_entry. cbn [fst snd].
-        split; [|split; [|split]]; try assumption.
+        split; [|split; [|split; [|split]]]; try assumption.
         right. split; [exists (removelast (pp_parts (pf_rel f))); assumption | assumption].
       * constructor; [|assumption]. split; [|split]; assumption.
     + assert (Ht : t <> dotdot) by (intros E; apply name_eqb_eq in E; congruence).
@@ -512,8 +520,9 @@ Proof.
       assert (NLr : not_link (lookup (w_fs wr) (pf_dir f ++ pp_parts np))).
       { intros i tg K. apply skel_link in K. rewrite (sim_skel _ _ _ _ _ _ S) in K. apply skel_link in K. exact (NLd i tg K). }
       rewrite (contained_rel (w_fs wr) f np (sim_wf _ _ _ _ _ _ S) Pd' NLr).
-      destruct (is_prefix_path (pf_dir f) (pf_dir f ++ pp_parts np)).
+      destruct (is_prefix_path (pf_dir f) (pf_dir f ++ pp_parts np)) eqn:IP.
       2:{ fp_exit T. }
+      assert (RT : retest_ok s0 (pf_dir f, pf_rel f, np)) by exact (retest_ok_plain s0 f _ np G Ps Pd NLd IP).
       rewrite (dest_parent_test_generated fixed _ s0 f _ np G eq_refl (source_contained_rel s0 f W0 Ps)),
               (dest_parent_test_generated fixed _ (w_fs wr) f _ np G eq_refl (source_contained_rel (w_fs wr) f (sim_wf _ _ _ _ _ _ S) (plain_rel_transfer _ _ _ _ (sim_skel _ _ _ _ _ _ S) Ps))).
       rewrite (parents_contained_rel s0 f np W0 Pd), (parents_contained_rel (w_fs wr) f np (sim_wf _ _ _ _ _ _ S) Pd').
@@ -529,7 +538,7 @@ Proof.
       destruct (is_file_exists e).
       * refine (IH _ _ _ _ _ _ _ _ _ _ _ _ _ PP' NL' ND' DR' NP' PDs' _ _ S1 Ed Er T1).
         -- constructor; [|assumption]. unfold plain_entry. cbn [fst snd].
-           split; [|split; [|split]]; try assumption.
+           split; [|split; [|split; [|split]]]; try assumption.
            left. split; [assumption|]. intros O. split.
            ++ pose proof (DR O) as K. inversion K as [|? ? Kf K']. cbn [fst snd] in Kf. rewrite Enp. exact Kf.
            ++ intros E. apply (ppath_neq_parts np (pf_rel f)); [rewrite Enp; reflexivity | assumption | symmetry; assumption].
